@@ -57,6 +57,34 @@ Qed.
 Lemma mul_un8_is_byte a b : is_byte (mul_un8 a b).
 Proof. unfold mul_un8, as_u8, is_byte. apply Z.mod_pos_bound. lia. Qed.
 
+
+Lemma outc_rmapM {A B} allow (g : A -> res B) : forall l,
+  (forall x, In x l -> outc allow (fun _ => True) (g x)) -> outc allow (fun _ => True) (rmapM g l).
+Proof.
+  induction l as [|x t IH]; intros H; cbn [rmapM]; [exact I|].
+  eapply outc_rbind; [apply H; left; reflexivity|]. intros y _.
+  eapply outc_rbind; [apply IH; intros z Hz; apply H; right; exact Hz|]. intros ys _. exact I.
+Qed.
+
+Lemma outc_concat_res {A} allow (l : list (res (list A))) :
+  (forall r, In r l -> outc allow (fun _ => True) r) -> outc allow (fun _ => True) (concat_res l).
+Proof.
+  intros H. unfold concat_res. apply (outc_rfold allow (fun _ => True)); [|exact I]. intros acc r _ Hr.
+  eapply outc_rbind; [apply H; exact Hr|]. intros x _. exact I.
+Qed.
+
+Lemma outc_of_ok {A} allow (r : res A) : (exists a, r = Ok a) -> outc allow (fun _ => True) r.
+Proof. intros [a ->]. exact I. Qed.
+
+(* selected(n, max) of Model/Dump.v stays in range *)
+Lemma in_selected n max x : 0 <= n -> (forall m, max = Some m -> 0 <= m) -> In x (selected n max) -> 0 <= x < n.
+Proof.
+  intros Hn Hmax. unfold selected. destruct max as [m|]; [|apply in_ziota].
+  specialize (Hmax m eq_refl). intros H. apply in_app_or in H. destruct H as [H|H].
+  - apply in_ziota in H. lia.
+  - destruct (Z.ltb_spec (Z.min n m) n) as [Hlt|Hge]; [|contradiction]. destruct H as [<-|[]]. lia.
+Qed.
+
 (* ------------------------------------------------------------------ *)
 (* accessors that do not produce images *)
 
@@ -216,6 +244,52 @@ Lemma zlen_skipn_z {A} (l : list A) n : 0 <= n <= zlen l -> zlen (skipn_z n l) =
 Proof. intros H. rewrite skipn_z_skipn. unfold zlen in *. rewrite skipn_length. lia. Qed.
 
 (* ------------------------------------------------------------------ *)
+(* the STRUCT walk of Model/Dump.v: sizes, durations, layers with parents and visibility,
+   tags, slices, user data, palette, external files, tilesets, lookups by name and id *)
+
+Lemma concat_res_ok {A} : forall (l : list (res (list A))) acc,
+  (forall r, In r l -> exists x, r = Ok x) ->
+  exists x, rfold (fun acc r => x <-- r ;;; Ok (acc ++ x)) l acc = Ok x.
+Proof.
+  induction l as [|r t IH]; intros acc H; cbn [rfold]; [eauto|].
+  destruct (H r (or_introl eq_refl)) as [x ->]. cbn [rbind]. apply IH. intros r' Hr'. apply H. right. exact Hr'.
+Qed.
+
+Section Struct.
+Variable W : Z -> Prop.
+Variable f : file.
+Hypothesis HV : ValidW W f.
+
+Lemma layer_lines_ok id : 0 <= id < num_layers f -> exists ls, layer_lines f id = Ok ls.
+Proof.
+  intros Hi. unfold layer_lines. destruct (layer_get_ok W f HV id Hi) as (l & -> & _). cbn [rbind].
+  destruct (layer_parent_ok W f HV id Hi) as [o ->]. cbn [rbind].
+  destruct (layer_is_visible_ok W f HV id Hi) as [b ->]. cbn [rbind]. eauto.
+Qed.
+
+Lemma lookup_lines_ok : exists ls, lookup_lines f = Ok ls.
+Proof.
+  unfold lookup_lines.
+  destruct (rmapM_ok (fun id => l <-- layer_get f id ;;; Ok [21; 0; id; 0; optz (layer_by_name f (l_name l))]) (ziota (num_layers f)))
+    as (ys & -> & _).
+  - intros id Hid. apply in_ziota in Hid. destruct (layer_get_ok W f HV id Hid) as (l & -> & _). cbn [rbind]. eauto.
+  - cbn [rbind]. eauto.
+Qed.
+
+Theorem section_struct_ok : exists ls, section_struct f = Ok ls.
+Proof.
+  unfold section_struct.
+  destruct (rmapM_ok (fun i => d <-- frame_duration f i ;;; Ok [3; i; d]) (ziota (num_frames f))) as (durs & -> & _).
+  { intros i Hi. apply in_ziota in Hi. destruct (frame_duration_ok f i Hi) as [d ->]. cbn [rbind]. eauto. }
+  cbn [rbind]. unfold concat_res.
+  destruct (concat_res_ok (map (layer_lines f) (ziota (num_layers f))) []) as [lays ->].
+  { intros r Hr. apply in_map_iff in Hr. destruct Hr as (id & <- & Hid). apply in_ziota in Hid. apply layer_lines_ok. exact Hid. }
+  cbn [rbind]. destruct lookup_lines_ok as [looks ->]. cbn [rbind]. eauto.
+Qed.
+
+End Struct.
+
+(* ------------------------------------------------------------------ *)
 (* rendering, generically in what may go wrong inside blend *)
 
 Section Render.
@@ -343,7 +417,7 @@ Lemma write_cel_ok img i c : 0 <= i < num_layers f -> cel_ok W f i c -> Pimg img
 Proof.
   intros Hi Hc Himg. unfold write_cel. destruct (c_content c) as [w h px|o|tm] eqn:Ec.
   - apply (write_cel_direct_ok img i c); try assumption. unfold is_linked. rewrite Ec. reflexivity.
-  - destruct Hc as [Hlay Hc]. rewrite Ec in Hc. destruct Hc as [Ho Htgt]. rewrite Hlay.
+  - destruct Hc as [Hlay Hc]. rewrite Ec in Hc. destruct Hc as (Ho & _ & Htgt). rewrite Hlay.
     destruct (layer_get_ok W f HV i Hi) as (ly & Ely & _). rewrite Ely. cbn [rbind].
     rewrite (cel_lookup_ok f o i) by (unfold num_frames; lia). cbn [rbind].
     destruct (cellat (get_row (f_cels f) o) i) as [c'|] eqn:Ec'; [|apply keeps_refl; exact Himg].
@@ -436,6 +510,91 @@ Proof.
   eexists. split; [reflexivity|]. cbn [rw rh rpx]. repeat split. apply zlen_firstn_z. lia.
 Qed.
 
+(* ---------------- the FRAMES, CELS and TILES walks of Model/Dump.v ---------------- *)
+
+Variable o : obsopts.
+Hypothesis Hmaxf : forall m, o_max_frames o = Some m -> 0 <= m.
+Hypothesis Hmaxl : forall m, o_max_layers o = Some m -> 0 <= m.
+
+Let any {A} : A -> Prop := fun _ => True.
+
+Lemma nframes_nonneg : 0 <= num_frames f.
+Proof. destruct (v_dims W f HV) as (_ & _ & H). unfold num_frames. lia. Qed.
+Lemma nlayers_nonneg : 0 <= num_layers f.
+Proof.
+  destruct (v_parents W f HV) as (ls & ps & El & _). unfold num_layers. rewrite El, alen_arr_of_list. apply zlen_nonneg.
+Qed.
+
+Lemma section_frames_ok : outc allow any (section_frames f o).
+Proof.
+  unfold section_frames. apply outc_rmapM. intros fr Hfr. apply in_selected in Hfr; [|exact nframes_nonneg|exact Hmaxf].
+  eapply outc_rbind; [apply frame_image_ok; exact Hfr|]. intros img _. exact I.
+Qed.
+
+Lemma cel_route_lines_ok fr l route : 0 <= fr < num_frames f -> 0 <= l < num_layers f ->
+  outc allow any (cel_route_lines f fr l route).
+Proof.
+  intros Hf Hl. unfold cel_route_lines. rewrite (route_cel_ok f route fr l Hf Hl). cbn [rbind].
+  destruct (cel_top_left_ok f (fr, l) Hf) as [[x y] ->]. cbn [rbind].
+  destruct (cel_is_empty_ok f (fr, l) Hf) as [e ->]. cbn [rbind].
+  destruct (cel_is_tilemap_ok f (fr, l) Hf) as [tm ->]. cbn [rbind].
+  destruct (route =? 0); [|exact I].
+  destruct (cel_user_data_ok f (fr, l) Hf) as [u ->]. cbn [rbind fst snd].
+  eapply outc_rbind; [apply cel_image_ok; exact Hf|]. intros img _. exact I.
+Qed.
+
+Lemma section_cels_ok : outc allow any (section_cels f o).
+Proof.
+  unfold section_cels. apply outc_concat_res. intros r Hr.
+  apply in_flat_map in Hr. destruct Hr as (fr & Hfr & Hr). apply in_selected in Hfr; [|exact nframes_nonneg|exact Hmaxf].
+  apply in_flat_map in Hr. destruct Hr as (l & Hl & Hr). apply in_selected in Hl; [|exact nlayers_nonneg|exact Hmaxl].
+  apply in_map_iff in Hr. destruct Hr as (route & <- & _). apply cel_route_lines_ok; assumption.
+Qed.
+
+Lemma tileset_img_lines_ok k ts : zfind k (f_tilesets f) = Some ts -> outc allow any (tileset_img_lines ts).
+Proof.
+  intros Hts. unfold tileset_img_lines. destruct (tileset_image_ok k ts Hts) as (full & -> & _). cbn [rbind].
+  destruct (v_tilesets W f HV _ _ Hts) as (_ & _ & Tc & _).
+  eapply outc_rbind with (P := any); [|intros tiles _; exact I].
+  apply outc_rmapM. intros i Hi.
+  assert (Hr : 0 <= i < ts_count ts).
+  { apply in_app_or in Hi. destruct Hi as [Hi|Hi].
+    - apply in_ziota in Hi. lia.
+    - destruct (Z.ltb_spec 64 (ts_count ts)); [|contradiction]. destruct Hi as [<-|[]]. lia. }
+  destruct (tile_image_ok k ts i Hts Hr) as (r & -> & _). exact I.
+Qed.
+
+Lemma tilemap_lines_ok l fr : outc allow any (tilemap_lines f l fr).
+Proof.
+  unfold tilemap_lines. destruct (tilemap_of_ok W f HV l fr) as (ot & -> & Hwf). cbn [rbind].
+  destruct ot as [t|]; [|exact I]. specialize (Hwf t eq_refl).
+  destruct (tilemap_tile_offsets_ok f t Hwf) as [[ox oy] ->]. cbn [rbind].
+  destruct (tilemap_pixel_offsets_ok f t Hwf) as [[px py] ->]. cbn [rbind].
+  eapply outc_rbind with (P := any).
+  - apply outc_rmapM. intros xy _. apply outc_of_ok. apply (tilemap_tile_ok W f HV). exact Hwf.
+  - intros ids _. eapply outc_rbind; [apply tilemap_image_ok; exact Hwf|]. intros img _. exact I.
+Qed.
+
+Lemma section_tiles_ok : outc allow any (section_tiles f o).
+Proof.
+  unfold section_tiles. eapply outc_rbind with (P := any).
+  { apply outc_concat_res. intros r Hr. apply in_map_iff in Hr. destruct Hr as ([k ts] & <- & Hk).
+    apply in_zelements in Hk. cbn [snd]. exact (tileset_img_lines_ok k ts Hk). }
+  intros tsl _. eapply outc_rbind with (P := any).
+  { apply outc_concat_res. intros r Hr. apply in_flat_map in Hr. destruct Hr as (l & _ & Hr).
+    apply in_map_iff in Hr. destruct Hr as (fr & <- & _). apply tilemap_lines_ok. }
+  intros tml _. destruct (tilemap_of_ok W f HV (num_layers f) 0) as (r1 & -> & _). cbn [rbind].
+  destruct (tilemap_of_ok W f HV 0 (num_frames f)) as (r2 & -> & _). cbn [rbind]. exact I.
+Qed.
+
+(* the whole observation of Model/Dump.v, section by section *)
+Theorem section_ok bit : outc allow any (section f o bit).
+Proof.
+  unfold section. destruct (bit =? 1); [apply outc_of_ok; exact (section_struct_ok W f HV)|].
+  destruct (bit =? 2); [exact section_frames_ok|]. destruct (bit =? 4); [exact section_cels_ok|].
+  destruct (bit =? 8); [exact section_tiles_ok|exact I].
+Qed.
+
 End Render.
 
 (* ------------------------------------------------------------------ *)
@@ -496,6 +655,19 @@ Proof.
   exact (tileset_image_ok W0 Psrc0 (fun _ _ => I) (fun _ _ => I) (fun _ _ _ _ _ => conj I I) f HV k ts).
 Qed.
 
+Definition opts_ok (o : obsopts) : Prop :=
+  (forall m, o_max_frames o = Some m -> 0 <= m) /\ (forall m, o_max_layers o = Some m -> 0 <= m).
+
+(* every section of the observation of Model/Dump.v (the whole public API walk) *)
+Theorem section_ok_or_302 o bit : opts_ok o ->
+  (exists ls, section f o bit = Ok ls) \/ section f o bit = Panic 302.
+Proof.
+  intros [Hf Hl].
+  pose proof (section_ok W0 allow0 Pimg0 Psrc0 Mok0 (fun _ _ => I) (fun _ _ => I) (fun _ _ _ _ _ => conj I I)
+                (fun _ _ => I) put0 f HV (fun _ _ _ => I) o Hf Hl bit) as H.
+  apply outc_302 in H. destruct H as [(ls & E & _)|E]; [left; eauto|right; exact E].
+Qed.
+
 End Unconditional.
 
 (* ------------------------------------------------------------------ *)
@@ -505,7 +677,7 @@ End Unconditional.
 Definition img_wf (img : image) : Prop := forall k p, PositiveMap.find k (ipx img) = Some p -> pix_wf p.
 
 Lemma transparent_wf : pix_wf transparent.
-Proof. cbn. unfold is_byte. lia. Qed.
+Proof. unfold transparent. cbn [pix_wf]. unfold is_byte. lia. Qed.
 
 Lemma img_get_wf img x y : img_wf img -> pix_wf (img_get img x y).
 Proof.
@@ -573,53 +745,16 @@ Qed.
 Theorem tilemap_image_total t : tilemap_wf f t -> exists img, tilemap_image f t = Ok img /\ image_ok img.
 Proof. intros (Hf & _). unfold tilemap_image. apply cel_image_total. exact Hf. Qed.
 
+(* the whole public API walk returns *)
+Theorem section_total o bit : opts_ok o -> exists ls, section f o bit = Ok ls.
+Proof.
+  intros [Hf Hl].
+  pose proof (section_ok is_byte allow1 img_wf pix_wf Mok pixW_byte_wf src_gray1 src_pal1 img_new_wf put1 f HV Hmodes
+                o Hf Hl bit) as H.
+  apply outc_none_ok in H. destruct H as (ls & E & _). eauto.
+Qed.
+
 End BlendTotal.
-
-(* ------------------------------------------------------------------ *)
-(* the STRUCT walk of Model/Dump.v: sizes, durations, layers with parents and visibility,
-   tags, slices, user data, palette, external files, tilesets, lookups by name and id *)
-
-Lemma concat_res_ok {A} : forall (l : list (res (list A))) acc,
-  (forall r, In r l -> exists x, r = Ok x) ->
-  exists x, rfold (fun acc r => x <-- r ;;; Ok (acc ++ x)) l acc = Ok x.
-Proof.
-  induction l as [|r t IH]; intros acc H; cbn [rfold]; [eauto|].
-  destruct (H r (or_introl eq_refl)) as [x ->]. cbn [rbind]. apply IH. intros r' Hr'. apply H. right. exact Hr'.
-Qed.
-
-Section Struct.
-Variable W : Z -> Prop.
-Variable f : file.
-Hypothesis HV : ValidW W f.
-
-Lemma layer_lines_ok id : 0 <= id < num_layers f -> exists ls, layer_lines f id = Ok ls.
-Proof.
-  intros Hi. unfold layer_lines. destruct (layer_get_ok W f HV id Hi) as (l & -> & _). cbn [rbind].
-  destruct (layer_parent_ok W f HV id Hi) as [o ->]. cbn [rbind].
-  destruct (layer_is_visible_ok W f HV id Hi) as [b ->]. cbn [rbind]. eauto.
-Qed.
-
-Lemma lookup_lines_ok : exists ls, lookup_lines f = Ok ls.
-Proof.
-  unfold lookup_lines.
-  destruct (rmapM_ok (fun id => l <-- layer_get f id ;;; Ok [21; 0; id; 0; optz (layer_by_name f (l_name l))]) (ziota (num_layers f)))
-    as (ys & -> & _).
-  - intros id Hid. apply in_ziota in Hid. destruct (layer_get_ok W f HV id Hid) as (l & -> & _). cbn [rbind]. eauto.
-  - cbn [rbind]. eauto.
-Qed.
-
-Theorem section_struct_ok : exists ls, section_struct f = Ok ls.
-Proof.
-  unfold section_struct.
-  destruct (rmapM_ok (fun i => d <-- frame_duration f i ;;; Ok [3; i; d]) (ziota (num_frames f))) as (durs & -> & _).
-  { intros i Hi. apply in_ziota in Hi. destruct (frame_duration_ok f i Hi) as [d ->]. cbn [rbind]. eauto. }
-  cbn [rbind]. unfold concat_res.
-  destruct (concat_res_ok (map (layer_lines f) (ziota (num_layers f))) []) as [lays ->].
-  { intros r Hr. apply in_map_iff in Hr. destruct Hr as (id & <- & Hid). apply in_ziota in Hid. apply layer_lines_ok. exact Hid. }
-  cbn [rbind]. destruct lookup_lines_ok as [looks ->]. cbn [rbind]. eauto.
-Qed.
-
-End Struct.
 
 (* ------------------------------------------------------------------ *)
 (* end to end: from a successful load *)
@@ -693,6 +828,10 @@ Theorem loaded_tileset_image k ts : zfind k (f_tilesets f) = Some ts ->
             zlen (rpx r) = ts_w ts * (ts_h ts * ts_count ts).
 Proof. exact (tileset_image_valid f HV k ts). Qed.
 
+Theorem loaded_walk o bit : opts_ok o ->
+  (exists ls, section f o bit = Ok ls) \/ section f o bit = Panic 302.
+Proof. exact (section_ok_or_302 f HV o bit). Qed.
+
 End FromLoad.
 
 (* with blend total on byte pixels for the modes in Mok and an inflate that returns bytes *)
@@ -718,4 +857,64 @@ Theorem loaded_cel_image_total fr l : 0 <= fr < num_frames f ->
   exists img, cel_image f (fr, l) = Ok img /\ (iw img = f_width f /\ ih img = f_height f) /\ forall x y, pix_wf (img_get img x y).
 Proof. exact (cel_image_total Mok blend_total f HV Hmodes fr l). Qed.
 
+Theorem loaded_walk_total o bit : opts_ok o -> exists ls, section f o bit = Ok ls.
+Proof. exact (section_total Mok blend_total f HV Hmodes o bit). Qed.
+
 End FromLoadBlend.
+
+(* ------------------------------------------------------------------ *)
+(* non-vacuity *)
+From Ase Require Import Proofs.Truncation.
+
+Lemma forallb_bytes l : forallb is_byteb l = true -> Forall is_byte l.
+Proof.
+  intros H. apply Forall_forall. intros b Hb. rewrite forallb_forall in H. specialize (H b Hb).
+  unfold is_byteb in H. apply andb_prop in H. destruct H as [H1 H2]. apply Z.leb_le in H1. apply Z.ltb_lt in H2.
+  unfold is_byte. lia.
+Qed.
+
+(* one frame, one layer, one raw 1x1 RGBA cel holding an opaque red pixel: 198 bytes *)
+Definition pix_frame : list Z :=
+  e_dword 70 ++ e_word 61946 ++ e_word 2 ++ e_word 100 ++ [0; 0] ++ e_dword 0 ++
+  (* layer chunk *)
+  e_dword 24 ++ e_word 8196 ++ e_word 1 ++ e_word 0 ++ e_word 0 ++ e_word 0 ++ e_word 0 ++ e_word 0 ++ [255] ++
+    [0; 0; 0] ++ e_word 0 ++
+  (* cel chunk *)
+  e_dword 30 ++ e_word 8197 ++ e_word 0 ++ e_short 0 ++ e_short 0 ++ [255] ++ e_word 0 ++ repeat 0 7 ++
+    e_word 1 ++ e_word 1 ++ [255; 0; 0; 255].
+Definition pix_file : list Z := mini_header ++ pix_frame.
+
+Example pix_file_bytes : Forall is_byte pix_file.
+Proof. apply forallb_bytes. vm_compute. reflexivity. Qed.
+
+Example pix_file_renders :
+  rmap (fun f => (num_layers f, num_frames f, rmap (fun img => (iw img, ih img, img_get img 0 0)) (frame_image f 0)))
+       (load no_inflate pix_file)
+  = Ok (1, 1, Ok (1, 1, (255, 0, 0, 255))).
+Proof. vm_compute. reflexivity. Qed.
+
+(* the theorems apply to it: hypotheses met, and the Panic 302 alternative does not occur *)
+Example pix_file_valid : exists f, load no_inflate pix_file = Ok f /\ Valid f /\
+  exists img, frame_image f 0 = Ok img /\ iw img = f_width f /\ ih img = f_height f.
+Proof.
+  destruct (load no_inflate pix_file) as [f|e|s] eqn:L; [|exfalso; revert L; vm_compute; discriminate ..].
+  exists f. split; [reflexivity|]. split; [exact (load_valid _ _ _ pix_file_bytes L)|].
+  assert (Hn : num_frames f = 1).
+  { assert (E : rmap num_frames (load no_inflate pix_file) = Ok 1) by (vm_compute; reflexivity).
+    rewrite L in E. cbn [rmap rbind] in E. injection E as E. exact E. }
+  destruct (loaded_frame_image _ _ _ pix_file_bytes L 0 ltac:(lia)) as [H|H]; [exact H|].
+  exfalso. assert (E : rmap (fun f => is_ok (frame_image f 0)) (load no_inflate pix_file) = Ok true) by (vm_compute; reflexivity).
+  rewrite L in E. cbn [rmap rbind] in E. rewrite H in E. discriminate.
+Qed.
+
+(* Valid is what rules the render panics out: the same cel declared 2x2 with one pixel (a file
+   value that no load produces) reaches the pixels[idx] panic *)
+Example invalid_file_panics :
+  let c := {| c_data := {| cc_layer := 0; cc_x := 0; cc_y := 0; cc_opacity := 255 |};
+              c_content := CRaw 2 2 (PRgba (arr_of_list [(255, 0, 0, 255)])); c_ud := None |} in
+  let f := {| f_width := 2; f_height := 2; f_nframes := 1; f_fmt := FRgba; f_palette := None;
+              f_layers := arr_of_list [mk_layer 1 0]; f_parents := arr_of_list [None];
+              f_default_time := 100; f_times := zempty; f_tags := []; f_cels := zadd 0 [Some c] zempty;
+              f_ext := zempty; f_tilesets := zempty; f_sprite_ud := None; f_slices := [] |} in
+  frame_image f 0 = Panic 303.
+Proof. vm_compute. reflexivity. Qed.
